@@ -14,12 +14,17 @@ SPECIAL_BYTES = [b" ", b"  ", b"-", b">", b" -> ", b"/", b"M", b'"', b"'", b"d",
 
 def perm(rng):
     r = rng.random()
-    if r < 0.6:
+    if r < 0.85:
         return rng.choice(["rwxr-xr-x", "rw-r--r--", "rwxrwxrwx", "---------", "rwsr-sr-t", "rwxr-xr-t", "r--r--r--"])
     return "".join(rng.choice("rwx-stST?") for _ in range(rng.choice([9, 9, 9, 8, 10, 3])))
 
 
 def ls_date(rng):
+    if rng.random() < 0.75:  # strictly valid
+        mon, day = rng.choice(MONTHS), rng.randint(1, 28)
+        if rng.random() < 0.5:
+            return f"{mon} {day:2d} {rng.randint(0, 23):02d}:{rng.randint(0, 59):02d}"
+        return f"{mon} {day:2d}  {rng.randint(1970, 2037)}"
     r = rng.random()
     mon = rng.choice(MONTHS) if rng.random() < 0.9 else rng.choice(["Foo", "jan", "FEB", "ſep", "Sept", ""])
     day = rng.choice([1, 3, 9, 10, 18, 28, 29, 30, 31, 0, 32])
@@ -38,15 +43,21 @@ def unix_line(rng):
     if t == "l" and rng.random() < 0.8:
         name = name + " -> " + rng.choice(["/target/", "file", "'", '"', "dir/'", 'dir/"', "x'", "", "/", "a -> b/"])
     sep = lambda: rng.choice([" ", " ", "  ", "   ", "\t", " \t "])
-    f = [t + perm(rng), str(rng.choice([1, 2, 10, 0])) if rng.random() < 0.9 else rng.choice(["x", "", "²", "٣", "1a"]),
+    f = [t + perm(rng), str(rng.choice([1, 2, 10, 0])) if rng.random() < 0.95 else rng.choice(["x", "", "²", "٣", "1a"]),
          rng.choice(["owner", "0", "root", "é"]), rng.choice(["group", "0", "wheel"]),
-         str(rng.choice([0, 1, 1234, 4096, 10**12])) if rng.random() < 0.9 else rng.choice(["1,024", "x", "", "²", "٣٤"]),
+         str(rng.choice([0, 1, 1234, 4096, 10**12])) if rng.random() < 0.95 else rng.choice(["1,024", "x", "", "²", "٣٤"]),
          ls_date(rng)]
     s = f[0] + sep() + f[1] + sep() + f[2] + sep() + f[3] + sep() + f[4] + sep() + f[5] + " " + name
     return s.encode("utf-8") + rng.choice([b"\r\n", b"\r\n", b"\n", b""])
 
 
 def win_line(rng):
+    if rng.random() < 0.7:  # strictly valid
+        d = f"{rng.randint(1, 12):02d}/{rng.randint(1, 28):02d}/{rng.randint(1980, 2037)}"
+        t = f"{rng.randint(1, 12):02d}:{rng.randint(0, 59):02d} {rng.choice(['AM', 'PM'])}"
+        mid = "<DIR>" if rng.random() < 0.5 else rng.choice(["0", "12", "1,024", "1,234,567"])
+        name = rng.choice(NAMES)
+        return f"{d}  {t}    {mid:<14} {name}".encode("utf-8") + rng.choice([b"\r\n", b"\r\n", b"\n", b""])
     mm, dd, yy = rng.choice([1, 10, 12, 13, 0]), rng.choice([1, 27, 31, 30, 32]), rng.choice([2016, 1999, 2024, 0, 9999, 16])
     hh, mi = rng.choice([1, 6, 12, 0, 13]), rng.choice([0, 2, 59, 60])
     ap = rng.choice(["AM", "PM", "PM", "pm", "aM", "XM", "M", ""])
